@@ -38,6 +38,14 @@ func (Engine) Generate(property, scenario string, seed uint64, tier string) *sim
 	switch scenario {
 	case "rsync", "rsync-small", "rsyncfail", "rsyncfail-transmit":
 		genRsync(p, r, tier)
+	case "framing":
+		genFraming(p, r, tier)
+	case "handshake":
+		genHandshake(p, r, tier)
+	case "log":
+		genLog(p, r, tier)
+	case "writers":
+		genWriters(p, r, tier)
 	}
 	return p
 }
@@ -50,6 +58,14 @@ func (Engine) Execute(t *testing.T, plan *simkit.Plan) *simkit.Result {
 		return execRsyncFail(plan)
 	case "rsyncfail-transmit":
 		return execRsyncFailTransmit(plan)
+	case "framing":
+		return execFraming(t, plan)
+	case "handshake":
+		return execHandshake(t, plan)
+	case "log":
+		return execLog(t, plan)
+	case "writers":
+		return execWriters(plan)
 	}
 	return &simkit.Result{Seed: plan.Seed, Trouble: "unknown scenario " + plan.Scenario}
 }
